@@ -433,6 +433,11 @@ func corpus() []*Case {
 		mk("k8", "Color", []string{"a1", "A1", "a_1"}, "", "", nil, "MyEnum", "result"),
 		mk("k9", "E", []string{"x", "X"}, "raw", "auto_camel_case", map[string]string{"E": "default"}, "", "result"),
 		mk("k10", "E", []string{"ab", "a_b", "a_B", "A_b", "AB"}, "", "auto_camel_case", nil, "", "variable"),
+		// values made of underscores only
+		mk("k11", "Marker", []string{"__", "A"}, "", "", nil, "", "result"),
+		mk("k12", "Marker", []string{"___", "__", "x"}, "", "", nil, "", "variable"),
+		mk("k13", "Marker", []string{"__", "_"}, "auto_camel_case", "", nil, "", "result"),
+		mk("k14", "Marker", []string{"__"}, "", "raw", nil, "", "inputfield"),
 	}
 }
 
